@@ -602,8 +602,11 @@ def kcoreness_centrality_bd(CIJ):
     coreness = np.zeros((N,))
     kn = np.zeros((N,))
 
-    for k in range(N):
-        CIJkcore, kn[k] = kcore_bd(CIJ, k)
+    # in- plus out-degree can reach 2(N-1), kn keeps its documented size N
+    for k in range(max(N, 2 * N - 1)):
+        CIJkcore, kn_k = kcore_bd(CIJ, k)
+        if k < N:
+            kn[k] = kn_k
         ss = (np.sum(CIJkcore, axis=0) + np.sum(CIJkcore, axis=1)) > 0
         coreness[ss] = k
 
